@@ -797,6 +797,8 @@ impl Context {
                         }
                     }
 
+                    let interpreter_old = self.interpreter.clone();
+
                     let _ = self.interpret_with_settings(
                         &mut no_print_settings,
                         "use units::currencies",
@@ -810,7 +812,19 @@ impl Context {
                     self.load_currency_module_on_demand = false;
 
                     // Now we try to evaluate the user expression again:
-                    return self.interpret_with_settings(settings, code, code_source);
+                    let result = self.interpret_with_settings(settings, code, code_source);
+
+                    if result.is_err() {
+                        // The input fails for another reason. Also undo the loading of the
+                        // currency module, such that a failing input leaves no trace.
+                        self.prefix_transformer = prefix_transformer_old;
+                        self.typechecker = typechecker_old;
+                        self.resolver.imported_modules = imported_modules_old;
+                        self.interpreter = interpreter_old;
+                        self.load_currency_module_on_demand = true;
+                    }
+
+                    return result;
                 }
             }
         }
